@@ -348,7 +348,8 @@ class HistoryModel:
             out = sut(go)
         except SutError as e:
             out = 'EXC:' + e.type
-        self._memo(('sample', c['input'], sd, target), out,
+        import hashlib
+        self._memo(('sample', c['input'], sd, target, hashlib.md5(lib['dump0'].encode()).hexdigest()), out,
                    'sampling from the shared library of %s (seed %d) changed within this history' % (c['input'], sd))
 
     def extend(self, i, variant):
@@ -382,6 +383,7 @@ class HistoryModel:
         if new not in fd:
             raise HistoryFailure('history:library-not-extended', 'read_fragments(%s, fragment_dict=lib): %s was not appended' % (text, new))
         lib['dump0'] = lib_dump(lib['dicts'])
+        lib['version'] = lib.get('version', 0) + 1      # the library holds more fragments now: samples from it may differ
 
     def check_libs(self):
         for lib in self.libs:
